@@ -397,8 +397,32 @@ def api_stage(res, rng, tier):
             res.violation(key + ":" + probs[0][0], "reported distance is not correction(surrogate) = metric over build -> update -> query: %s" % probs[0][1], case)
 
 
+def scale_stage(res, rng):
+    """cosine and true_angular are scale free: the surrogate path must report the same value for (s x, s y) at every magnitude at
+    which the squares of the entries are representable in float32 (DESIGN note N5: 1e-18 .. 1e18)"""
+    from pynndescent import distances as D
+    from harness import refmetrics as R
+    for name in ("cosine", "true_angular"):
+        alt = D.fast_distance_alternatives[name]
+        for c in range(12):
+            dim = int(rng.integers(2, 9))
+            x = np.abs(rng.standard_normal(dim)).astype(np.float32) + np.float32(0.1)
+            y = np.abs(rng.standard_normal(dim)).astype(np.float32) + np.float32(0.1)
+            base = float(alt["correction"](np.float32(alt["dist"](x, y))))
+            for sc in (1e-15, 1e-12, 1e-9, 1e-6, 1e6, 1e9, 1e12, 1e15):
+                xs = (x * np.float32(sc)).astype(np.float32); ys = (y * np.float32(sc)).astype(np.float32)
+                v = float(alt["correction"](np.float32(alt["dist"](xs, ys))))
+                res.case(("scale", name, sc, x.tobytes(), y.tobytes()), True)
+                res.count("scale_cases")
+                if not R.close(v, base, name, scale=4.0):
+                    res.violation("surrogate:dense:%s:scale" % name, "correction(surrogate(s*x, s*y)) = %r at s = %g but %r at s = 1" % (v, sc, base),
+                                  {"metric": name, "x": x.tolist(), "y": y.tolist(), "scale": sc})
+                    break
+
+
 def run(res, tier, seed, search):
     api_stage(res, np.random.default_rng([seed, 909]), tier)
+    scale_stage(res, np.random.default_rng([seed, 910]))
     from harness import c07_model
     c07_model.run_model(res, np.random.default_rng([seed, 709]), 40 if tier == "quick" else 600)   # Lean model (Float) vs real kernels / ufuncs
     quick = tier == "quick"
